@@ -1,60 +1,84 @@
 #!/venv/bin/python
-"""Apply every kept seeded change to /repo in turn (git apply; always undone), run the quick tier of the check for its
-property (plus any extra checks named on the command line as NAME:Cxx,Cyy), and record the outcome in meta.json and
-seeded/MATRIX.md. Usage: tools/seeded_matrix.py [only-name-substring]"""
+"""Apply every kept seeded change to a scratch worktree of /repo HEAD in turn, run the quick tier of the check for its
+property (plus the extra checks in EXTRA) with VERIF_REPO pointing at that worktree, and record the outcome in meta.json
+and seeded/MATRIX.md. /repo itself is never modified. Usage: tools/seeded_matrix.py [only-name-substring] [--jobs N]"""
 import json
 import os
 import subprocess
 import sys
+from concurrent.futures import ThreadPoolExecutor
 
 VERIF = os.path.dirname(os.path.dirname(os.path.abspath(__file__)))
 EXTRA = {'C01-lower-xycb-variant-lost': ['C02'], 'C02-quote-escape-bit7': ['C01'], 'C05-c-sbc-hl-carry-ffff': ['C06'],
-         'C06-c-add-ixiy-contention-pattern': ['C19'], 'C07-fd2e-decode-size': ['C14'], 'C09-snapmod-move-top': [], 'C10-szx-fffd-masked': ['C09']}
+         'C06-c-add-ixiy-contention-pattern': ['C19'], 'C07-fd2e-decode-size': ['C14'], 'C09-snapmod-move-top': [], 'C10-szx-fffd-masked': ['C09'],
+         'C10-pagingtracer-plus2a-decode-diverges-from-c': ['C08'], 'C01-jr-displacement-0x80-read-as-plus-128': ['C02', 'C07']}
+
+def one(name, registered, slot):
+    d = os.path.join(VERIF, 'seeded', name)
+    mp = os.path.join(d, 'meta.json')
+    meta = json.load(open(mp))
+    if meta.get('status', '').startswith('neutralised'):
+        return (name, meta['property'], 'neutralised by a later fix', '')
+    checks = [c for c in [meta['property']] + EXTRA.get(name, []) if c in registered]
+    results = {}
+    wt = '/tmp/seedmatrix.%d.%d' % (os.getpid(), slot)
+    subprocess.run(['git', '-C', '/repo', 'worktree', 'add', '-q', '--detach', wt, 'HEAD'], check=True)
+    try:
+        if subprocess.run(['git', 'apply', os.path.join(d, 'patch.diff')], cwd=wt).returncode:
+            return (name, meta['property'], 'patch no longer applies', '')
+        env = dict(os.environ, VERIF_REPO=wt, VERIF_NO_EVIDENCE='1')
+        for c in checks:
+            r = subprocess.run([os.path.join(VERIF, 'check'), c, 'quick', '--jobs', '6'], capture_output=True, text=True, cwd=VERIF, env=env)
+            first = ''
+            lines = r.stdout.splitlines()
+            for i, l in enumerate(lines):
+                if l.startswith('VIOLATION'):
+                    first = (lines[i + 1] if i + 1 < len(lines) else '').strip()[:160]
+                    break
+            results[c] = {'exit': r.returncode, 'violation_lines': sum(1 for l in lines if l.startswith('VIOLATION')), 'first': first}
+            print(name, c, 'exit', r.returncode, first[:100], flush=True)
+    finally:
+        subprocess.run(['git', '-C', '/repo', 'worktree', 'remove', '--force', wt])
+    meta['detection'] = results
+    meta['detected_by'] = sorted(c for c, v in results.items() if v['exit'] == 1)
+    json.dump(meta, open(mp, 'w'), indent=1)
+    return (name, meta['property'], ', '.join('%s:%s' % (c, 'caught' if v['exit'] == 1 else 'MISSED(exit %d)' % v['exit']) for c, v in sorted(results.items())) or 'no registered check yet',
+            results.get(meta['property'], {}).get('first', ''))
 
 def main():
-    only = sys.argv[1] if len(sys.argv) > 1 else ''
+    args = sys.argv[1:]
+    jobs = 3
+    if '--jobs' in args:
+        i = args.index('--jobs')
+        jobs = int(args[i + 1])
+        del args[i:i + 2]
+    only = args[0] if args else ''
     with open(os.path.join(VERIF, 'vk', 'registered.txt')) as f:
         registered = set(f.read().split())
-    rows = []
-    for name in sorted(os.listdir(os.path.join(VERIF, 'seeded'))):
-        d = os.path.join(VERIF, 'seeded', name)
-        mp = os.path.join(d, 'meta.json')
-        if not os.path.isfile(mp) or only not in name:
-            continue
-        meta = json.load(open(mp))
-        checks = [c for c in [meta['property']] + EXTRA.get(name, []) if c in registered]
-        results = meta.get('detection', {})
-        if meta.get('status', '').startswith('neutralised'):
-            rows.append((name, meta['property'], 'neutralised by a later fix', ''))
-            continue
-        wt = '/tmp/seedmatrix.%d' % os.getpid()
-        subprocess.run(['git', '-C', '/repo', 'worktree', 'add', '-q', '--detach', wt, 'HEAD'], check=True)
+    names = [n for n in sorted(os.listdir(os.path.join(VERIF, 'seeded'))) if os.path.isfile(os.path.join(VERIF, 'seeded', n, 'meta.json'))]
+    todo = [n for n in names if only in n]
+    slots = list(range(jobs))
+    def run(n):
+        slot = slots.pop()
         try:
-            if subprocess.run(['git', 'apply', os.path.join(d, 'patch.diff')], cwd=wt).returncode:
-                rows.append((name, meta['property'], 'patch no longer applies', ''))
-                continue
-            env = dict(os.environ, VERIF_REPO=wt, VERIF_NO_EVIDENCE='1')
-            for c in checks:
-                r = subprocess.run([os.path.join(VERIF, 'check'), c, 'quick'], capture_output=True, text=True, cwd=VERIF, env=env)
-                first = ''
-                lines = r.stdout.splitlines()
-                for i, l in enumerate(lines):
-                    if l.startswith('VIOLATION'):
-                        first = (lines[i + 1] if i + 1 < len(lines) else '').strip()[:160]
-                        break
-                results[c] = {'exit': r.returncode, 'violation_lines': sum(1 for l in lines if l.startswith('VIOLATION')), 'first': first}
-                print(name, c, 'exit', r.returncode, first[:100], flush=True)
+            return one(n, registered, slot)
         finally:
-            subprocess.run(['git', '-C', '/repo', 'worktree', 'remove', '--force', wt])
-        meta['detection'] = results
-        meta['detected_by'] = sorted(c for c, v in results.items() if v['exit'] == 1)
-        json.dump(meta, open(mp, 'w'), indent=1)
-        rows.append((name, meta['property'], ', '.join('%s:%s' % (c, 'caught' if v['exit'] == 1 else 'MISSED(exit %d)' % v['exit']) for c, v in sorted(results.items())) or 'no registered check yet',
-                     results.get(meta['property'], {}).get('first', '')))
-    # restore evidence from the unchanged tree for the checks we ran
+            slots.append(slot)
+    with ThreadPoolExecutor(jobs) as ex:
+        done = dict(zip(todo, ex.map(run, todo)))
+    rows = []
+    for n in names:
+        if n in done:
+            rows.append(done[n])
+            continue
+        meta = json.load(open(os.path.join(VERIF, 'seeded', n, 'meta.json')))
+        res = meta.get('detection', {})
+        rows.append((n, meta['property'], 'neutralised by a later fix' if meta.get('status', '').startswith('neutralised') else
+                     (', '.join('%s:%s' % (c, 'caught' if v['exit'] == 1 else 'MISSED(exit %d)' % v['exit']) for c, v in sorted(res.items())) or 'not run yet'),
+                     res.get(meta['property'], {}).get('first', '')))
     with open(os.path.join(VERIF, 'seeded', 'MATRIX.md'), 'w') as f:
         f.write('# Seeded property-breaking changes vs. checks (quick tier)\n\nEach change was written by an independent sub-agent from the property text only, '
-                'confirmed in a scratch worktree (demo passes on the pristine tree, fails with the change, repository tests unchanged) and is applied to /repo only for the duration of a run.\n\n')
+                'confirmed in a scratch worktree (demo passes on the pristine tree, fails with the change, repository tests unchanged) and is applied only to a scratch worktree for the duration of a run.\n\n')
         f.write('| change | property | result | first report |\n|---|---|---|---|\n')
         for r in rows:
             f.write('| %s | %s | %s | %s |\n' % (r[0], r[1], r[2], r[3].replace('|', '/')))
